@@ -188,9 +188,10 @@ def gen_prog(rng, depth, opts):
                               ['UncaughtTimeoutError']] + ([['TimeoutCancellationError'], ['CancelledError']]
                                                            if opts.get('catch_cancel') else []))
         return ['try', gen_prog(rng, depth - 1, opts), classes, gen_prog(rng, depth - 1, opts)]
-    if r < 0.98:
+    if r < 0.975:
         return ['skip']
-    return ['raise', 'KeyError']
+    # a user exception, or a cancellation that has nothing to do with any deadline (awaiting a future somebody cancelled)
+    return ['raise', rng.choice(['KeyError', 'CancelledError', 'CancelledError'])]
 
 
 def catches_cancel(p):
